@@ -57,3 +57,11 @@ def sweep_leftovers(max_age=3600):
 
 def mkscratch(tag=''):
     return tempfile.mkdtemp(prefix=f'wcverif-{tag}', dir=scratch_base())
+
+
+def mknested(tag=''):
+    """(base, root): root lies four private levels below the shared scratch base (see wcverif.tree.Tree)."""
+    base = mkscratch(tag)
+    root = os.path.join(base, 'w', 'x', 'y', 'root')
+    os.makedirs(root)
+    return base, root
